@@ -195,10 +195,13 @@ def gen_fft(rng):
 
 def gen_wavelet(rng):
     fam = rng.choice(['haar', 'db2', 'db3', 'sym2', 'coif1', 'bior1.1', 'bior2.2', 'rbio1.3', 'db4', 'sym3'])
-    nd = rng.randint(1, 2)
-    dom = [rng.choice([4, 6, 8]) for _ in range(nd)]
-    batch = rng.choice([[], [2]])
-    return {'cls': 'WaveletOp', 'wavelet': fam, 'domain': dom, 'batch': batch, 'level': rng.choice([1, 1, 2, None]), 'complex': rng.random() < 0.5}
+    nd = rng.choice([1, 2, 2, 3])
+    dom = [rng.choice([4, 6, 8]) for _ in range(nd)] if nd < 3 else [4, rng.choice([4, 6]), 4]     # 3-D: 64 .. 96 unknowns
+    batch = rng.choice([[], [2]]) if nd < 3 else []
+    level = rng.choice([1, 1, 2, None])
+    if nd == 3 and level is None:
+        level = 1       # 3-D with a zero maximal level is open finding KF-07 (kept as a fixed case of C01's wavelet family)
+    return {'cls': 'WaveletOp', 'wavelet': fam, 'domain': dom, 'batch': batch, 'level': level, 'complex': rng.random() < 0.5}
 
 
 def gen_pca(rng):
@@ -212,10 +215,11 @@ def gen_grid(rng):
     inp = [rng.randint(2, 3) if dim == 3 else 1, rng.randint(2, 4), rng.randint(2, 4)]
     out = [rng.randint(1, 3) for _ in range(dim)]
     B = rng.choice([1, 1, 2, 3])
-    n = B * prod(out) * dim
+    B2 = rng.choice([0, 0, 0, 2, 3])      # a second batch dimension of the grid (0: none); size 2 collides with the (real, imag) helper axis if misplaced
+    n = B * max(B2, 1) * prod(out) * dim
     wide = rng.random() < 0.5   # half of the grids reach well outside [-1, 1] (padding modes only matter there)
     grid = [rng.randint(-20, 20) / 8 if wide else rng.randint(-10, 10) / 8 for _ in range(n)]
-    return {'cls': 'GridSamplingOp', 'dim': dim, 'input': inp, 'out': out, 'B': B, 'grid': grid,
+    return {'cls': 'GridSamplingOp', 'dim': dim, 'input': inp, 'out': out, 'B': B, 'B2': B2, 'grid': grid,
             'interp': rng.choice(['bilinear', 'nearest', 'bicubic'] if dim == 2 else ['bilinear', 'nearest']),
             'pad': rng.choice(['zeros', 'border', 'reflection']), 'align': rng.random() < 0.5, 'complex': rng.random() < 0.5,
             'channels': rng.choice([1, 2])}
@@ -283,9 +287,10 @@ def build(cfg):
         return ops.PCACompressionOp(data, cfg['n']), [*cfg['other'], cfg['joint'], cfg['comp']]
     if cls == 'GridSamplingOp':
         dim = cfg['dim']
-        grid = torch.tensor(cfg['grid'], dtype=torch.float64).reshape(cfg['B'], *cfg['out'], dim)
+        bshape = [cfg['B']] + ([cfg['B2']] if cfg.get('B2') else [])      # one or two batch dimensions of the grid
+        grid = torch.tensor(cfg['grid'], dtype=torch.float64).reshape(*bshape, *cfg['out'], dim)
         op = ops.GridSamplingOp(grid, SpatialDimension(*cfg['input']), cfg['interp'], cfg['pad'], cfg['align'])
-        return op, [cfg['B'], cfg['channels'], *cfg['input'][-dim:]]
+        return op, [*bshape, cfg['channels'], *cfg['input'][-dim:]]
     if cls == 'SliceProjectionOp':
         if cfg['rot'] == 'id':
             rot = None
